@@ -1,5 +1,7 @@
 -- Root of the `LdkModel` library: imports every property module.
 import LdkModel.Props.C01
+import LdkModel.Props.C03
+import LdkModel.Props.C04
 import LdkModel.Props.C05
 import LdkModel.Props.C08
 import LdkModel.Props.C09
@@ -9,5 +11,5 @@ import LdkModel.Props.C15
 import LdkModel.Props.C16
 import LdkModel.Props.C17
 import LdkModel.Props.C18
-import LdkModel.Props.C20
 import LdkModel.Props.C19
+import LdkModel.Props.C20
